@@ -150,6 +150,7 @@ pub mod verif_codec {
     use libp2p_identity::PeerId;
 
     pub use crate::{
+        config::TopicMeshConfig,
         handler::HandlerEvent,
         protocol::{GossipsubCodec, ProtocolConfig},
         types::{ControlAction, RpcIn, Subscription, SubscriptionAction},
